@@ -8,6 +8,7 @@ import (
 	"os"
 	"path/filepath"
 	"regexp"
+	"runtime"
 	"sort"
 	"strings"
 	"sync"
@@ -714,12 +715,23 @@ func runSampler(e *simcore.Env, tp *simcore.Tape) {
 			"--trace-pipeline-native-plugin-enabled=true", "--trace-pipeline-decide-timeout=" + decideTimeout.String(),
 			fmt.Sprintf("--trace-pipeline-decide-timeout-circuit-break=%d", tp.Range(1, 3)),
 		}
-		n, err := simnode.Boot(repo, e.Dir, simnode.Engines{Trace: true}, flags)
+		// sizes of the engine's two global semaphores (the engine uses the CPU count): small values make merges
+		// and sampler calls queue behind a sampler that overruns its deadline
+		simnode.TraceMergeConcurrency, simnode.TraceSamplerSlots = tp.Range(1, 4), tp.Range(1, 4)
+		defer func() { simnode.TraceMergeConcurrency, simnode.TraceSamplerSlots = 0, 0 }()
+		flags = append(flags, fmt.Sprintf("(merge-concurrency=%d sampler-slots=%d)", simnode.TraceMergeConcurrency, simnode.TraceSamplerSlots))
+		n, err := simnode.Boot(repo, e.Dir, simnode.Engines{Trace: true}, flags[:len(flags)-1])
 		if err != nil {
 			e.Fail("boot", "boot-failed", "boot: %v", err)
 			return
 		}
-		defer n.Stop()
+		defer func() {
+			n.Stop()
+			// a sampler that overran its deadline is still sleeping on the fake clock (abandoned by the engine,
+			// as designed); the clock stops when the scenario goroutine returns, so let it finish first
+			time.Sleep(2 * decideTimeout)
+			stopAndReport(e, n)
+		}()
 		m := wl.NewTraceModel(s)
 		h := &harness{e: e, tp: tp, n: n, s: s, m: m, obs: &maintObs{prev: map[string][]string{}}}
 
@@ -1000,4 +1012,21 @@ func (h *harness) diagnoseByID(id string, lo, hi int64) string {
 		}
 	}
 	return b.String()
+}
+
+// stopAndReport stops the node and, with VERIF_C13_DEBUG set, prints the bubble goroutines that are still
+// alive afterwards (the synctest panic "blocked goroutines remain" does not say which).
+func stopAndReport(e *simcore.Env, n *simnode.Node) {
+	n.Stop()
+	if os.Getenv("VERIF_C13_DEBUG") == "" {
+		return
+	}
+	synctest.Wait()
+	buf := make([]byte, 4<<20)
+	buf = buf[:runtime.Stack(buf, true)]
+	for _, g := range strings.Split(string(buf), "\n\n") {
+		if strings.Contains(g, "synctest bubble") && !strings.Contains(g, "stopAndReport") && !strings.Contains(g, "synctest.Run") && !strings.Contains(g, "testingSynctestTest") {
+			fmt.Fprintf(os.Stderr, "LEFTOVER seed=%d\n%s\n\n", e.Seed, g)
+		}
+	}
 }
